@@ -167,6 +167,11 @@ def _get_natural_f(knots: numpy.ndarray) -> numpy.ndarray:
     """
     from scipy import linalg
 
+    if knots.size == 2:
+        # With only the two boundary knots there are no interior equations: the
+        # natural cubic spline is the straight line (zero second derivatives).
+        return numpy.zeros((2, 2))
+
     h = knots[1:] - knots[:-1]
     diag = (h[:-1] + h[1:]) / 3.0
     ul_diag = h[1:-1] / 6.0
